@@ -1,8 +1,199 @@
 /-
 C08 — simplification keeps the meaning, only removes, reaches a valid fixed point.
+
+Model: `simplify` = `deduplicate` then `simplify_constraints` (FIXED CODE: one pass with a stack
+of retained constraints, then `sorted(set(...))` whose set iteration order is the arbitrary
+permutation `perm`).  Spec: `denoteR` (redundant-range meaning), `validate`, sub-list.
+Helper lemmas: `Univers/Vers/Simplify*.lean`.
 -/
-import Univers.Vers.Spec
+import Univers.Vers.SimplifyChar
+import Univers.Props.C04
 
 namespace Univers.C08
+
+open Univers Std
+
+variable {V : Type} {o : VOps V} {cmp : V → V → Ordering}
+
+/-- on a version-sorted list with distinct versions there is nothing to deduplicate -/
+theorem simplify_eq_simplifyConstraints [TransCmp cmp] (h : Lawful o cmp)
+    (perm : List (Con V) → List (Con V)) (cs : List (Con V)) (hs : StrictSorted cmp cs) :
+    simplify o perm cs = simplifyConstraints o perm cs := by
+  unfold simplify
+  rw [deduplicate_of_apart [] cs (by intro _ _ _ hs; cases hs) (strictSorted_apart h cs hs)]
+
+/-- exact duplicates of some constraints simply disappear -/
+theorem simplify_dups (perm : List (Con V) → List (Con V)) (L cs : List (Con V))
+    (hd : deduplicate o [] L = cs) (hcs : deduplicate o [] cs = cs) :
+    simplify o perm L = simplify o perm cs := by
+  unfold simplify; rw [hd, hcs]
+
+theorem simpStep_ne_nil (st : List (Con V)) (c : Con V) : simpStep st c ≠ [] := by
+  unfold simpStep
+  split
+  · simp
+  · split
+    · rename_i hh
+      cases st with
+      | nil => simp [topIsLower] at hh
+      | cons a t => simp
+    · simp
+
+theorem foldl_simpStep_ne_nil : ∀ (l st : List (Con V)), st ≠ [] → l.foldl simpStep st ≠ []
+  | [], st, h => h
+  | c :: t, st, _ => foldl_simpStep_ne_nil t _ (simpStep_ne_nil st c)
+
+theorem simpKept_ne_nil (l : List (Con V)) (h : l ≠ []) : simpKept l ≠ [] := by
+  cases l with
+  | nil => exact absurd rfl h
+  | cons c t =>
+    unfold simpKept
+    simp only [List.foldl_cons, ne_eq, List.reverse_eq_nil_iff]
+    exact foldl_simpStep_ne_nil t _ (simpStep_ne_nil [] c)
+
+/-- The four clauses at once, for every version-sorted list with pairwise distinct versions
+(well-formed or not, any length, any lawful scheme) and every iteration order `perm` of the
+intermediate set: simplification returns a list `R` that
+ 1. is a sub-list of the input,
+ 2. has the same (redundant-range) meaning for every version,
+ 3. is accepted by validation,
+ 4. is a fixed point of simplification. -/
+theorem simplify_spec [TransCmp cmp] (h : Lawful o cmp)
+    (perm : List (Con V) → List (Con V)) (hperm : ∀ l, (perm l).Perm l)
+    (cs : List (Con V)) (hns : noStar cs = true) (hs : StrictSorted cmp cs) :
+    ∃ R, simplify o perm cs = .ok R ∧ R.Sublist cs ∧
+      (∀ x, denoteR cmp R x = denoteR cmp cs x) ∧
+      validate o R = .ok true ∧
+      simplify o perm R = .ok R := by
+  obtain ⟨R, hR, hsub, hne, hrest⟩ := simplifyConstraints_char h perm hperm cs hns hs
+  have hnsR : noStar R = true := by
+    apply List.all_eq_true.mpr
+    intro c hc; exact List.all_eq_true.mp hns c (hsub.subset hc)
+  have hsR : StrictSorted cmp R := List.Pairwise.sublist hsub hs
+  have hpl := plain_filter_notNe cs hns
+  have hrestS : StrictSorted cmp (cs.filter (fun c => !c.isNe)) := List.Pairwise.filter _ hs
+  obtain ⟨hksub, hkmw, _⟩ := simpKept_spec (cmp := cmp) _ hpl hrestS
+  have hkred := redFwd_simpKept (cmp := cmp) _ hpl hrestS
+  have hkpl : plain (simpKept (cs.filter (fun c => !c.isNe))) := fun c hc => hpl c (hksub.subset hc)
+  refine ⟨R, by rw [simplify_eq_simplifyConstraints h perm cs hs]; exact hR, hsub, ?_, ?_, ?_⟩
+  · -- 2. meaning
+    intro x
+    rw [denoteR_eq_mw R hnsR hsR x, denoteR_eq_mw cs hns hs x]
+    by_cases hall : cs.all Con.isNe = true
+    · -- only "!=": nothing is removed
+      have hrestnil : cs.filter (fun c => !c.isNe) = [] := by
+        apply List.filter_eq_nil_iff.mpr
+        intro c hc; simp [List.all_eq_true.mp hall c hc]
+      have hcsne : cs.filter Con.isNe = cs := by
+        apply List.filter_eq_self.mpr
+        intro c hc; exact List.all_eq_true.mp hall c hc
+      have hRall : R.filter (fun c => !c.isNe) = [] := by rw [hrest, hrestnil]; rfl
+      have hRne : R.filter Con.isNe = R := by
+        apply List.filter_eq_self.mpr
+        intro c hc
+        cases hn : c.isNe with
+        | true => rfl
+        | false =>
+          have : c ∈ R.filter (fun c => !c.isNe) := List.mem_filter.mpr ⟨hc, by simp [hn]⟩
+          rw [hRall] at this; cases this
+      have : R = cs := by rw [← hRne, hne, hcsne]
+      rw [this]
+    · have hall' : cs.all Con.isNe = false := by cases hh : cs.all Con.isNe <;> simp_all
+      have hrestne : cs.filter (fun c => !c.isNe) ≠ [] := by
+        intro e
+        have : cs.all Con.isNe = true := by
+          apply List.all_eq_true.mpr
+          intro c hc
+          cases hn : c.isNe with
+          | true => rfl
+          | false =>
+            have : c ∈ cs.filter (fun c => !c.isNe) := List.mem_filter.mpr ⟨hc, by simp [hn]⟩
+            rw [e] at this; cases this
+        rw [this] at hall'; cases hall'
+      have hkne := simpKept_ne_nil _ hrestne
+      obtain ⟨k0, hk0⟩ : ∃ k0, k0 ∈ R.filter (fun c => !c.isNe) := by
+        rw [hrest]
+        cases hk : simpKept (cs.filter (fun c => !c.isNe)) with
+        | nil => exact absurd hk hkne
+        | cons a t => exact ⟨a, List.mem_cons_self⟩
+      have hk0' := List.mem_filter.mp hk0
+      have hRall : R.all Con.isNe = false := by
+        apply Bool.eq_false_iff.mpr
+        intro hh
+        have := List.all_eq_true.mp hh k0 hk0'.1
+        simp [this] at hk0'
+      have hRemp : R.isEmpty = false := by
+        cases R with
+        | nil => cases hk0'.1
+        | cons _ _ => rfl
+      have hcsemp : cs.isEmpty = false := by
+        cases cs with
+        | nil => simp at hrestne
+        | cons _ _ => rfl
+      have hanyR : R.any (fun c => c.isNe && c.at cmp x) = cs.any (fun c => c.isNe && c.at cmp x) := by
+        rw [← List.any_filter, ← List.any_filter, hne]
+      have hmw : mw cmp x false R = mw cmp x false cs := by
+        rw [← mw_filter_notNe x R false, hrest, hkmw x false, mw_filter_notNe x cs false]
+      simp only [hRall, hall', hRemp, hcsemp, hanyR, hmw, Bool.false_eq_true, if_false]
+  · -- 3. accepted by validation
+    apply (validate_ok_iff_wf h R).mpr
+    refine ⟨R, List.Perm.refl _, Or.inr ⟨hnsR, hsR, ?_, ?_⟩⟩
+    · unfold eqRule
+      rw [hrest]
+      exact eqPairs_of_red _ hkred
+    · rw [altRule_eq_altB]
+      have : R.filter Con.isBound = (R.filter (fun c => !c.isNe)).filter Con.isBound := by
+        rw [List.filter_filter]
+        apply List.filter_congr
+        intro c _
+        cases c with
+        | star => rfl
+        | mk k v => cases k <;> rfl
+      rw [this, hrest]
+      exact (altB_of_red _ hkred hkpl).1
+  · -- 4. a fixed point
+    rw [simplify_eq_simplifyConstraints h perm R hsR]
+    obtain ⟨R', hR', hsub', hne', hrest'⟩ := simplifyConstraints_char h perm hperm R hnsR hsR
+    have hfix : R'.filter (fun c => !c.isNe) = R.filter (fun c => !c.isNe) := by
+      rw [hrest', hrest, simpKept_of_red _ hkred]
+    have hlen : ∀ l : List (Con V), l.length =
+        (l.filter Con.isNe).length + (l.filter (fun c => !c.isNe)).length := by
+      intro l
+      have := (List.filter_append_perm Con.isNe l).length_eq
+      simpa using this.symm
+    have : R' = R := by
+      apply hsub'.eq_of_length
+      rw [hlen R', hlen R, hne', hfix]
+    rw [hR', this]
+
+/-- The canonical result does not depend on the iteration order of the intermediate set, i.e.
+on the interpreter's hash seed. -/
+theorem simplify_seed_independent [TransCmp cmp] (h : Lawful o cmp)
+    (perm perm' : List (Con V) → List (Con V)) (hperm : ∀ l, (perm l).Perm l)
+    (hperm' : ∀ l, (perm' l).Perm l)
+    (cs : List (Con V)) (hns : noStar cs = true) (hs : StrictSorted cmp cs) :
+    simplify o perm cs = simplify o perm' cs := by
+  rw [simplify_eq_simplifyConstraints h perm cs hs, simplify_eq_simplifyConstraints h perm' cs hs]
+  obtain ⟨R, hR, hsub, hne, hrest⟩ := simplifyConstraints_char h perm hperm cs hns hs
+  obtain ⟨R', hR', hsub', hne', hrest'⟩ := simplifyConstraints_char h perm' hperm' cs hns hs
+  have hp : R.Perm R' := by
+    have p1 := (List.filter_append_perm Con.isNe R).symm
+    have p2 := List.filter_append_perm Con.isNe R'
+    rw [hne, hrest] at p1
+    rw [hne', hrest'] at p2
+    exact p1.trans p2
+  have : R = R' := strictSorted_perm_eq h R R' (List.Pairwise.sublist hsub hs)
+    (List.Pairwise.sublist hsub' hs) hp
+  rw [hR, hR', this]
+
+/-! non-vacuity: the hypotheses are met by a concrete redundant list, and the model removes
+what it should -/
+example : StrictSorted C04.intCmp [.mk .ge 2, .mk .gt 4, .mk .eq 5, .mk .lt 6, .mk .le 8] ∧
+    noStar ([.mk .ge 2, .mk .gt 4, .mk .eq 5, .mk .lt 6, .mk .le 8] : List (Con Int)) = true := by
+  refine ⟨?_, by decide⟩
+  simp [StrictSorted, C04.intCmp]; decide
+
+example : simpKept ([.mk .ge 2, .mk .gt 4, .mk .eq 5, .mk .lt 6, .mk .le 8] : List (Con Int))
+    = [.mk .ge 2, .mk .le 8] := by rfl
 
 end Univers.C08
